@@ -3,6 +3,7 @@ from engine import *
 import obligations
 import provenance
 import mutations
+import eventloops
 import chainrules
 
 MONP = 'lightning::chain::channelmonitor::'
@@ -350,8 +351,11 @@ def r07h(F):
 				fl |= expr_leaves(ex.of_operand(a))['fields']
 			if 'channel_keys_id' in fl:
 				cmpid.add(b)
-	if len(signs) < 2 or len(derive) < 2:
-		return [Result('07.h', False, 'anchor:signer-cache', 'sign_spendable_outputs_psbt: signing calls / derive_channel_keys not found (%d/%d)' % (len(signs), len(derive)), where=F.where(fn))]
+	# a derivation inside a closure handed to get_or_insert_with / unwrap_or_else runs only when the cache is EMPTY - it does not re-key the
+	# cache, so it counts for the anchor floor but does not discharge the path obligation below
+	derive_all = set(sites_call_via_closures(F, fu, ['lightning::sign::KeysManager::derive_channel_keys']))
+	if len(signs) < 2 or len(derive_all) < 2:
+		return [Result('07.h', False, 'anchor:signer-cache', 'sign_spendable_outputs_psbt: signing calls / derive_channel_keys not found (%d/%d)' % (len(signs), len(derive_all)), where=F.where(fn))]
 	heads = loop_heads(fu)
 	for b in signs:
 		hs = [h for h in heads if b in fu.reach([h]) and h in fu.reach([b])]
@@ -465,3 +469,4 @@ RULES.append(('07.u', 'obligation-carrying values returned by workspace calls (t
 RULES.append(('07.t', 'identity comparisons: every reviewed (function, identity type) == / != comparison (HTLCSource, Txid, OutPoint, ChannelId, PaymentHash, PublicKey, ...) is still made - a function does not silently change what it matches by (rules/provenance.py)', lambda F: provenance.ids_for_property(F, 'C07', '07.t')))
 RULES.append(('07.R', 'state resets: every reviewed constant write to persistent state (flag = true / false, counter = 0, pending slot = None) of a function is still made (rules/provenance.py)', lambda F: provenance.flags_for_property(F, 'C07', '07.R')))
 RULES.append(('07.M', 'collection mutations: every reviewed (function, stored collection, mutator class: add / remove / filter / empty / swap / order) triple is still present - an entry that is no longer removed, inserted or drained on one path (rules/mutations.py)', lambda F: mutations.for_property(F, 'C07', '07.M')))
+RULES.append(('07.E', 'event replay: the count of events drained from pending_events is advanced only on the Ok arm of the handler result - a SpendableOutputs event whose handler failed is replayed, not dropped (rules/eventloops.py)', lambda F: eventloops.rule(F, '07.E', r'chain/', 3)))
